@@ -541,7 +541,7 @@ pub fn gen(out: &mut Out, sub: &str) {
     // ---- 1. loop chains (sequential: each input is the previous result) ----------------------
     {
         let mut w = guard::Worker::new(WORKER);
-        for _ in 0..(if is_unary { out.size(25, 250) } else { out.size(40, 400) }) {
+        for _ in 0..(if is_unary { out.size(25, 150) } else { out.size(40, 300) }) {
             chain(&mut w, &mut rng, &mut events, &mut abandoned_calls);
         }
     }
@@ -549,7 +549,7 @@ pub fn gen(out: &mut Out, sub: &str) {
 
     // ---- 2. independent calls -----------------------------------------------------------------
     let mut inputs = if is_unary { Vec::new() } else { fixed_cases() };
-    let n = if is_unary { out.size(150, 2000) } else { out.size(450, 6000) };
+    let n = if is_unary { out.size(150, 1200) } else { out.size(450, 5000) };
     for _ in 0..n {
         // normalize
         inputs.push(inp("bricks", "normalize", val(&gen_bricks(&mut rng)), no_val()));
